@@ -36,6 +36,7 @@ ASSUMPTIONS = [
     "steps rejected by schema validation (SchemaValidationError / ExtensionError / SDLError) produce no schema; their side effects on the heap are still compared; any other exception, a plain SchemaError included, is a failure of the derivation",
     "about half of the object types of a source get their resolvers through the schema's registries; 12% of the sources hold one or two type objects that are instances of an application-defined subclass of ObjectType / InterfaceType / InputObjectType",
     "default values are opaque to the heap model (`dflt` = repr of the coerced value): the steps sent to the model add no input field WITH a default and remove no enum value / input field a default mentions through an extension, so `ArgKept.dflt` (the default is kept) is what the code does; defaults that must CHANGE (an extension adding a defaulted input field, T15) or that mention removed members (T13, T14) are checked by the direct oracle only (`default_cases`, `directive_cases`)",
+    "the ORDER of the `types` / `directives` dicts is compared with the model (corr:registry-order) for clone / transform / in-place / replace results without an extension in their ancestry; the order `extend_schema` gives its result is not modelled (the heap comparison itself is order-insensitive)",
     "resolver identity is by function object (every resolver of the harness is a distinct function with a stable id); the registry model compares these ids",
 ]
 TRUSTED = [
@@ -1561,9 +1562,18 @@ def run(ctx):
             msteps = []
         if cfg is not None and ctx.model_ok and msteps:
             try:
-                impl = W.canon(dumper.dump(schemas))
+                raw = dumper.dump(schemas)
+                impl = W.canon(raw)
+                record["_order"] = [[[n for n, _ in x["types"]], [n for n, _ in x["dirs"]]] for x in raw["schemas"]]
                 pyc = [not [b for b in W.closed_violations(x) if not b.startswith("implementations")] for x in schemas]
-                batch.append((to_model_request(base_world, msteps, cfg), impl, record, pyc))
+                req = to_model_request(base_world, msteps, cfg)
+                # the model gets the registries of the source in the code's dict order (canon sorts them)
+                sch0 = dict(req["schema"])
+                for which, k in (("types", 0), ("dirs", 1)):
+                    pos = {n: j for j, n in enumerate(record["_order"][0][k])}
+                    sch0[which] = sorted(sch0[which], key=lambda e: pos.get(e[0], len(pos)))
+                req["schema"] = sch0
+                batch.append((req, impl, record, pyc))
             except Exception as e:  # noqa
                 ctx.notes.append("dump failed: %s" % e)
     # --- correspondence with the heap model
@@ -1582,6 +1592,29 @@ def run(ctx):
                 ctx.fail("corr:heap-differs:%s" % (last["op"] + ("/" + "+".join(v["k"] for v in last.get("visitors", [])) if last["op"] == "transform" else "")),
                          "object graph of model and implementation differ (impl vs model): %s" % d,
                          {"record": record, "diff": d}, kind="correspondence")
+            # ORDER of the registries (Python dicts keep insertion order): `clone_types_order` (the clone lists its types in the
+            # order of Schema.__init__'s type map), `clone_refines_directives` (directives in the source's order), in-place
+            # replacement keeps positions. The order of `extend_schema`'s result is not modelled: results with an extension
+            # in their ancestry are only counted.
+            oks = [st for st in record["steps"] if st.get("status") == "ok"]
+            tainted = [False]
+            for st in oks:
+                src = st.get("src", 0)
+                tainted.append(st["op"] == "extend" or (tainted[src] if src < len(tainted) else True))
+            for i, (mo, io) in enumerate(zip(ans["schemas"], record.get("_order", []))):
+                if i == 0 or i - 1 >= len(oks):
+                    continue
+                opn = oks[i - 1]["op"]
+                for which, k in (("types", 0), ("dirs", 1)):
+                    m_names = [n for n, _ in mo[which]]
+                    if tainted[i]:
+                        ctx.stat("order:%s:%s:not-modelled(extension)" % (which, opn))
+                        continue
+                    ctx.stat("order:%s:%s:%s" % (which, opn, "same" if m_names == io[k] else "DIFFERS"))
+                    if m_names != io[k]:
+                        ctx.fail("corr:registry-order:%s:%s" % (which, opn),
+                                 "order of the %s dict after %s differs (impl vs model): %r vs %r" % (which, opn, io[k], m_names),
+                                 {"record": record, "schema_index": i, "impl": io[k], "model": m_names}, kind="correspondence")
             # the model's closedness verdicts = the oracle's
             if ans.get("closed") != pyc:
                 ctx.fail("corr:closed-verdict", "closedness verdict of the model (closedB) differs from the identity check on the live objects",
